@@ -8,8 +8,9 @@ never delivered to a task that did not declare the pair, and starting, stopping 
 or reorder points of a running task.
 
 Model: Kap/Model/C02.lean (fork table of task_master.go, from-node matching of stream.go). Spec: Kap/Spec/C02.lean.
-All theorems quantify over EVERY well-formed history (`WF`: an id is not started while it is executing), every default retention
-policy, every task id and from-node index; nothing is bounded.
+All theorems quantify over EVERY history of start / failing start / stop / delete / write operations (no well-formedness hypothesis:
+since the third fix a start of an executing id is refused, in the code, the model and the spec), every default retention policy,
+every task id and from-node index; nothing is bounded.
 -/
 import Kap.Proofs.C02Closed
 namespace Kap.Props.C02
@@ -24,7 +25,6 @@ def witness : List Op :=
 /-- Counterexample: with the snapshot's `forkPoint` (both lookups unconditionally) the point reaches each sink twice, whereas the
 spec asks for once (replayed on the real code by corpus/C02/double-delivery-exact-and-wildcard-key.ops). -/
 theorem old_forkPoint_delivers_twice :
-    WF witness ∧
     (runWith forkPointOld "autogen" witness).delivered "t" 0 = [1, 1] ∧
     (runWith forkPointOld "autogen" witness).delivered "t" 1 = [1, 1] ∧
     specDelivered "autogen" "t" 0 witness = [1] ∧ specDelivered "autogen" "t" 1 witness = [1] := by
@@ -51,44 +51,60 @@ theorem old_failed_start_leaves_stale_subscription :
     (startTaskFail (init "") d).forks ("d", "r", "") = [] ∧ (forkPoint (startTaskFail (init "") d) ⟨1, "d", "r", "m", []⟩).log = [] := by
   decide
 
+/-- Third defect of the snapshot (repaired by the third `fix:` commit of findings/C02.txt): `StartTask` did not look whether the id is
+already executing. Starting `t` again under another definition left the OLD edge registered under the old keys, so both incarnations
+record under the same node names (the sink sees points of the old AND the new selection), and `delFork` then closes the old edge
+and never the input edge of the ExecutingTask it stops (on the real code `StopTask` waits for ever while holding the lock:
+corpus/C02/start-of-executing-id.ops). -/
+theorem old_start_of_executing_id_corrupts_routing :
+    let a : TaskDef := ⟨"t", [("d", "r")], [{ name := "a" }]⟩
+    let b : TaskDef := ⟨"t", [("d", "r")], [{ name := "b" }]⟩
+    let s := writePointsWith forkPoint (startTaskOld (startTaskOld (init "") a) b) "d" "r" [⟨1, "a", []⟩, ⟨2, "b", []⟩]
+    s.delivered "t" 0 = [1, 2] ∧
+    specDelivered "" "t" 0 [.start a, .start b, .write "d" "r" [⟨1, "a", []⟩, ⟨2, "b", []⟩]] = [1] ∧
+    (run "" [.start a, .start b, .write "d" "r" [⟨1, "a", []⟩, ⟨2, "b", []⟩]]).delivered "t" 0 = [1] ∧
+    -- stopping it closes the stale edge #0, not the input edge #1 of the task being stopped
+    (s.tasks "t").map (·.eid) = some 1 ∧ (stopTask s "t").closed.map (·.eid) = [0] := by
+  decide
+
 /-! ### The fork table -/
 
-/-- **The fork table is exactly the set of subscriptions of the executing tasks** — after every well-formed history: an entry
+/-- **The fork table is exactly the set of subscriptions of the executing tasks** — after every history: an entry
 `(id ↦ e)` sits under key `k` iff `id` is executing with input edge `e` and `k` is one of its dbrp × measurement keys. In particular
 stop/delete leave no stale key, and start misses none (every from-node's measurement is covered). -/
-theorem fork_table_exact (drp : String) (ops : List Op) (hwf : WF ops) (k : Key) (id : String) (e : Edge) :
+theorem fork_table_exact (drp : String) (ops : List Op) (k : Key) (id : String) (e : Edge) :
     (id, e) ∈ (run drp ops).forks k ↔ ((run drp ops).tasks id = some e ∧ k ∈ e.task.keys) := by
-  have hi : Inv (run drp ops) := run_inv drp ops hwf
+  have hi : Inv (run drp ops) := run_inv drp ops
   exact ⟨fun h => hi.entry k id e h, fun h => hi.reg id e h.1 k h.2⟩
 
 /-- … and no inner map holds an id twice (it is a map). -/
-theorem fork_table_functional (drp : String) (ops : List Op) (hwf : WF ops) (k : Key) :
+theorem fork_table_functional (drp : String) (ops : List Op) (k : Key) :
     (((run drp ops).forks k).map (·.1)).Nodup :=
-  (run_inv drp ops hwf).nodup k
+  (run_inv drp ops).nodup k
 
-/-- **Routing never touches a closed edge.** After every well-formed history no `forkPoint` has collected on an edge that `delFork`
+/-- **Routing never touches a closed edge.** After every history no `forkPoint` has collected on an edge that `delFork`
 had closed (in Go: `send on closed channel`, a panic in the forking goroutine that kills the process), and every edge still
 registered is open. -/
-theorem never_sends_on_closed_edge (drp : String) (ops : List Op) (hwf : WF ops) :
+theorem never_sends_on_closed_edge (drp : String) (ops : List Op) :
     (run drp ops).sentOnClosed = false ∧ ∀ k id e, (id, e) ∈ (run drp ops).forks k → e ∉ (run drp ops).closed :=
-  ⟨(run_invC drp ops hwf).good, (run_invC drp ops hwf).openE⟩
+  ⟨(run_invC drp ops).good, (run_invC drp ops).openE⟩
 
 /-! ### Routing -/
 
-/-- **Master theorem: exactly once, in order, only what was selected.** For every well-formed history, the sequence recorded under
+/-- **Master theorem: exactly once, in order, only what was selected.** For every history, the sequence recorded under
 from-node #`i` of task `t` IS the sequence of the points written while `t` was enabled, to a (db, rp) its definition declares and
 that the from-node selects — each once, in write order (`specDelivered` is literally `filter` + `map` over the written points). -/
-theorem route_refines_spec (drp : String) (ops : List Op) (hwf : WF ops) (t : String) (i : Nat) :
+theorem route_refines_spec (drp : String) (ops : List Op) (t : String) (i : Nat) :
     (run drp ops).delivered t i = specDelivered drp t i ops :=
-  run_delivered_eq_spec drp ops hwf t i
+  run_delivered_eq_spec drp ops t i
 
 /-- **Multiplicity = 1, not ≥ 1 and not ≤ 1.** When the written points carry distinct ids, each id is recorded exactly once if some
 write of it qualifies (task enabled, pair declared, from-node selects) and not at all otherwise. -/
-theorem route_exactly_once (drp : String) (ops : List Op) (hwf : WF ops) (hid : (writtenIds ops).Nodup)
+theorem route_exactly_once (drp : String) (ops : List Op) (hid : (writtenIds ops).Nodup)
     (t : String) (i : Nat) (pid : Nat) :
     ((run drp ops).delivered t i).count pid =
       if ∃ w ∈ writeEvents drp t none ops, qualifies i w = true ∧ w.pt.id = pid then 1 else 0 := by
-  rw [route_refines_spec drp ops hwf]
+  rw [route_refines_spec drp ops]
   unfold specDelivered
   have hnd : (((writeEvents drp t none ops).filter (qualifies i)).map (·.pt.id)).Nodup := by
     apply List.Nodup.sublist _ hid
@@ -110,11 +126,11 @@ theorem route_exactly_once (drp : String) (ops : List Op) (hwf : WF ops) (hid : 
 /-- **Never to a task that did not declare the pair, never while it is not enabled, never past its from() selection**: whatever a
 sink records was written while the task was enabled under a definition that declares the written (db, rp) and whose from-node #`i`
 selects the point. -/
-theorem route_only_declared (drp : String) (ops : List Op) (hwf : WF ops) (t : String) (i : Nat) (pid : Nat)
+theorem route_only_declared (drp : String) (ops : List Op) (t : String) (i : Nat) (pid : Nat)
     (h : pid ∈ (run drp ops).delivered t i) :
     ∃ w ∈ writeEvents drp t none ops, w.pt.id = pid ∧
       ∃ d f, w.enabled = some d ∧ (w.db, w.rp) ∈ d.dbrps ∧ d.froms[i]? = some f ∧ selects f w.db w.rp w.pt = true := by
-  rw [route_refines_spec drp ops hwf] at h
+  rw [route_refines_spec drp ops] at h
   obtain ⟨w, hw, hp⟩ := List.mem_map.mp h
   obtain ⟨hw1, hq⟩ := List.mem_filter.mp hw
   refine ⟨w, hw1, hp, ?_⟩
@@ -130,27 +146,27 @@ theorem route_only_declared (drp : String) (ops : List Op) (hwf : WF ops) (t : S
       exact ⟨d, f, rfl, hq.1, hf, hq.2⟩
 
 /-- **Order**: what a sink records is a subsequence of the written points in write order (nothing reordered, nothing invented). -/
-theorem route_order (drp : String) (ops : List Op) (hwf : WF ops) (t : String) (i : Nat) :
+theorem route_order (drp : String) (ops : List Op) (t : String) (i : Nat) :
     ((run drp ops).delivered t i).Sublist (writtenIds ops) := by
-  rw [route_refines_spec drp ops hwf, ← writeEvents_ids drp t ops none]
+  rw [route_refines_spec drp ops, ← writeEvents_ids drp t ops none]
   exact List.Sublist.map _ List.filter_sublist
 
-/-- **Frame theorem: other tasks are irrelevant.** Two well-formed histories that agree on the writes and on the operations of task
+/-- **Frame theorem: other tasks are irrelevant.** Two histories that agree on the writes and on the operations of task
 `t` deliver the same sequence to every from-node of `t` — whatever starts, stops and deletes of OTHER tasks either of them contains,
 wherever they are interleaved. -/
-theorem other_tasks_irrelevant (drp : String) (ops₁ ops₂ : List Op) (h₁ : WF ops₁) (h₂ : WF ops₂) (t : String)
+theorem other_tasks_irrelevant (drp : String) (ops₁ ops₂ : List Op) (t : String)
     (hsame : ops₁.filter (relevant t) = ops₂.filter (relevant t)) (i : Nat) :
     (run drp ops₁).delivered t i = (run drp ops₂).delivered t i := by
-  rw [route_refines_spec drp ops₁ h₁, route_refines_spec drp ops₂ h₂]
+  rw [route_refines_spec drp ops₁, route_refines_spec drp ops₂]
   unfold specDelivered
   rw [← writeEvents_filter_relevant drp t ops₁, ← writeEvents_filter_relevant drp t ops₂, hsame]
 
 /-- The frame theorem in its "insertion" form: putting a start/stop/delete of another task anywhere into a history changes
 nothing for `t`. -/
 theorem insert_other_task_op (drp : String) (pre post : List Op) (op : Op) (t : String) (hop : relevant t op = false)
-    (h₁ : WF (pre ++ post)) (h₂ : WF (pre ++ op :: post)) (i : Nat) :
+    (i : Nat) :
     (run drp (pre ++ op :: post)).delivered t i = (run drp (pre ++ post)).delivered t i := by
-  apply other_tasks_irrelevant drp _ _ h₂ h₁ t
+  apply other_tasks_irrelevant drp _ _ t
   simp [List.filter_append, hop]
 
 /-! ### Non-vacuity: the hypotheses are met by concrete, non-trivial histories -/
@@ -167,20 +183,13 @@ def sample : List Op :=
    .delete "t",
    .write "d" "autogen" [⟨6, "cpu", [0]⟩]]
 
-example : WF sample ∧ (writtenIds sample).Nodup ∧
+example : (writtenIds sample).Nodup ∧
     (run "autogen" sample).delivered "t" 0 = [1, 3] ∧ (run "autogen" sample).delivered "t" 1 = [1, 4] ∧
     (run "autogen" sample).delivered "u" 0 = [1] := by decide
 
-example : WF (sample.filter (relevant "t")) ∧ (sample.filter (relevant "t")).length < sample.length := by decide
+example : (sample.filter (relevant "t")).length < sample.length := by decide
 
 /-- `never_sends_on_closed_edge` is not vacuous: edges do get closed. -/
 example : (run "autogen" sample).closed.length = 3 ∧ (run "autogen" sample).sentOnClosed = false := by decide
-
-/-- Why `WF` is a hypothesis: `StartTask` on an id that is executing (under another definition) leaves the old edge subscribed,
-so the old incarnation keeps recording under the same node names — the model reproduces this misuse, the spec does not allow it. -/
-example :
-    let ops : List Op := [.start ⟨"t", [("d", "r")], [{ name := "a" }]⟩, .start ⟨"t", [("d", "r")], [{ name := "b" }]⟩,
-                          .write "d" "r" [⟨1, "a", []⟩]]
-    ¬ WF ops ∧ (run "" ops).delivered "t" 0 = [1] ∧ specDelivered "" "t" 0 ops = [] := by decide
 
 end Kap.Props.C02
